@@ -73,6 +73,13 @@ type vfxSpec struct {
 	OddRewards  bool   `json:"odd_rewards"`  // every block gets rewards; commission strings "", "7", "12.5" and one that is not a number
 	NoTxIndex   bool   `json:"no_tx_index"`  // Transaction nodes without the optional position index (archives written before the field existed)
 	Variant     int    `json:"variant"`      // alternative content for the same epoch ("another CAR of the same epoch")
+	EdgeTxs     bool   `json:"edge_txs"`     // every second transaction has a legal but unusual shape (see vfxEdgeShapes): no instructions, an instruction without accounts and data, several instructions, every account a signer, many signatures, a version-0 message; every entry holds at least one transaction
+
+	// LayoutSeed (optional): when non-zero, the generator's random stream is seeded by this value alone (not by
+	// seed, epoch and variant): two epochs built from otherwise equal specs with the same layout seed make the
+	// same random choices, so that their CAR files are laid out alike (same object sizes and byte offsets) and
+	// only the slot numbers differ. 0 = as before.
+	LayoutSeed uint64 `json:"layout_seed,omitempty"`
 }
 
 type vfxObj struct {
@@ -98,6 +105,7 @@ type vfxTx struct {
 	Fee      uint64   `json:"fee"`
 	Frames   int      `json:"frames"`     // frames of the transaction payload
 	MetaFr   int      `json:"meta_frames"`
+	Edge     string   `json:"edge,omitempty"` // name of the unusual shape of this transaction (spec.EdgeTxs), "" for an ordinary one
 }
 
 type vfxEntry struct {
@@ -186,6 +194,7 @@ type vfxGen struct {
 	seen map[string]bool
 
 	shuffleNext bool
+	edgeSeq     int // transactions generated so far (spec.EdgeTxs only)
 }
 
 func (g *vfxGen) add(data []byte) cid.Cid {
@@ -259,6 +268,9 @@ func (g *vfxGen) frames(payload []byte, frameSize, fanOut int) (ipldbindcode.Dat
 
 func vfxGenerate(spec vfxSpec) (*vfxTruth, []byte) {
 	g := &vfxGen{rng: vh.NewRng(spec.Seed*1000003 + spec.Epoch*7919 + uint64(spec.Variant)*104729), seen: map[string]bool{}, shuffleNext: spec.ShuffleNext}
+	if spec.LayoutSeed != 0 {
+		g.rng = vh.NewRng(spec.LayoutSeed)
+	}
 	rng := g.rng
 	tr := &vfxTruth{Spec: spec}
 	base := spec.Epoch * vfxEpochLen
@@ -306,6 +318,9 @@ func vfxGenerate(spec vfxSpec) (*vfxTruth, []byte) {
 		total := 0
 		for e := range ntxs {
 			ntxs[e] = rng.Intn(spec.MaxTx + 1)
+			if spec.EdgeTxs && ntxs[e] == 0 {
+				ntxs[e] = 1 // enough transactions for every shape of vfxEdgeShapes to occur
+			}
 			total += ntxs[e]
 		}
 		positions := make([]int, total)
@@ -382,7 +397,15 @@ func vfxGenerate(spec vfxSpec) (*vfxTruth, []byte) {
 						Instructions:    []solana.CompiledInstruction{{ProgramIDIndex: uint16(len(accs) - 1), Accounts: ixAccs, Data: rng.Bytes(1 + rng.Intn(12))}},
 					},
 				}
-				if spec.BigObjects && rng.Intn(6) == 0 {
+				edge := ""
+				if spec.EdgeTxs {
+					if g.edgeSeq%2 == 0 {
+						edge = vfxEdgeShapes[(g.edgeSeq/2)%len(vfxEdgeShapes)]
+						vote = vfxEdgeTx(edge, rng, &tx, &accs)
+					}
+					g.edgeSeq++
+				}
+				if spec.BigObjects && rng.Intn(6) == 0 && len(tx.Message.Instructions) > 0 {
 					// a large instruction payload: section-length varint becomes 2 or 3 bytes wide
 					sz := 200 + rng.Intn(400)
 					if rng.Intn(4) == 0 {
@@ -455,7 +478,7 @@ func vfxGenerate(spec vfxSpec) (*vfxTruth, []byte) {
 				tc := g.add(tb)
 				txLinks = append(txLinks, cidlink.Link{Cid: tc})
 				vt := vfxTx{Slot: slot, Pos: pos, Sig: sig.String(), Cid: hex.EncodeToString(tc.Bytes()), Vote: vote, Failed: failed, ErrName: errName,
-					TxB64: base64.StdEncoding.EncodeToString(txb), MetaB64: base64.StdEncoding.EncodeToString(mb), Fee: meta.Fee, Frames: nfr, MetaFr: nmfr}
+					TxB64: base64.StdEncoding.EncodeToString(txb), MetaB64: base64.StdEncoding.EncodeToString(mb), Fee: meta.Fee, Frames: nfr, MetaFr: nmfr, Edge: edge}
 				for _, a := range accs {
 					vt.Accounts = append(vt.Accounts, a.String())
 				}
@@ -845,4 +868,110 @@ func vfxMulti(truths []*vfxTruth, concurrency int) (*MultiEpoch, []*Epoch, error
 		eps = append(eps, ep)
 	}
 	return multi, eps, nil
+}
+
+// ---------------------------------------------------------------- legal but unusual transaction shapes (spec.EdgeTxs)
+
+// vfxEdgeShapes lists the shapes in the order in which the generator hands them out (every second transaction
+// of an epoch built with spec.EdgeTxs gets the next one). All of them pass the sanitisation rules of a Solana
+// message (num_required_signatures + num_readonly_unsigned <= number of account keys, every index in range,
+// one signature per required signer); the archive holds such transactions.
+var vfxEdgeShapes = []string{
+	"no-instructions",           // legacy, one signature, the instruction list is empty (the transaction only pays its fee)
+	"no-instructions-2sig",      // the same with two signatures
+	"instruction-no-accounts",   // one instruction with an empty account list and empty data
+	"two-instructions-vote-2nd", // two instructions, the second of the vote program (still a simple vote transaction)
+	"three-instructions-vote",   // three instructions of the vote program (not a simple vote transaction)
+	"all-accounts-sign",         // every account key, the program included, is a required signer; no read-only accounts
+	"twelve-signatures",         // twelve signers (what fits a 1232-byte packet) and the program
+	"instruction-all-accounts",  // the program is the last account; the instruction lists every account (in reverse order), the program itself included
+	"v0-no-instructions",        // a version-0 message without instructions and without address-table lookups
+	"v0-one-instruction",        // a version-0 message with one instruction whose program is the last account, no lookups
+}
+
+// vfxEdgeTx rewrites tx (and the account list accs kept as ground truth) into the named shape, keeping the
+// first signature and the first two accounts. It returns whether the result is a SIMPLE vote transaction
+// (legacy, fewer than three signatures, one instruction of the vote program or two with the second of it).
+func vfxEdgeTx(shape string, rng *vh.Rng, tx *solana.Transaction, accs *[]solana.PublicKey) (simpleVote bool) {
+	newKey := func() solana.PublicKey {
+		var k solana.PublicKey
+		copy(k[:], rng.Bytes(32))
+		return k
+	}
+	setSigners := func(n int) {
+		for len(tx.Signatures) < n {
+			var s solana.Signature
+			copy(s[:], rng.Bytes(64))
+			tx.Signatures = append(tx.Signatures, s)
+		}
+		tx.Signatures = tx.Signatures[:n]
+		tx.Message.Header.NumRequiredSignatures = uint8(n)
+	}
+	m := &tx.Message
+	payer, second := m.AccountKeys[0], m.AccountKeys[1]
+	isVoteProg := m.AccountKeys[len(m.AccountKeys)-1] == solana.VoteProgramID
+	switch shape {
+	case "no-instructions":
+		setSigners(1)
+		m.Instructions = []solana.CompiledInstruction{}
+	case "no-instructions-2sig":
+		setSigners(2)
+		m.Instructions = []solana.CompiledInstruction{}
+	case "instruction-no-accounts":
+		setSigners(1)
+		m.Instructions = []solana.CompiledInstruction{{ProgramIDIndex: uint16(len(m.AccountKeys) - 1), Accounts: []uint16{}, Data: []byte{}}}
+		simpleVote = isVoteProg
+	case "two-instructions-vote-2nd":
+		setSigners(1 + rng.Intn(2))
+		m.AccountKeys = []solana.PublicKey{payer, second, solana.SystemProgramID, solana.VoteProgramID}
+		m.Header.NumReadonlyUnsignedAccounts = 2
+		m.Instructions = []solana.CompiledInstruction{
+			{ProgramIDIndex: 2, Accounts: []uint16{0, 1}, Data: rng.Bytes(4)},
+			{ProgramIDIndex: 3, Accounts: []uint16{1, 0}, Data: rng.Bytes(1 + rng.Intn(8))},
+		}
+		simpleVote = true
+	case "three-instructions-vote":
+		setSigners(1)
+		m.AccountKeys = []solana.PublicKey{payer, second, solana.VoteProgramID}
+		m.Header.NumReadonlyUnsignedAccounts = 1
+		m.Instructions = nil
+		for i := 0; i < 3; i++ {
+			m.Instructions = append(m.Instructions, solana.CompiledInstruction{ProgramIDIndex: 2, Accounts: []uint16{1, 0}, Data: rng.Bytes(1 + i)})
+		}
+	case "all-accounts-sign":
+		m.AccountKeys = []solana.PublicKey{payer, second, newKey(), m.AccountKeys[len(m.AccountKeys)-1]}
+		setSigners(4)
+		m.Header.NumReadonlySignedAccounts, m.Header.NumReadonlyUnsignedAccounts = 1, 0
+		m.Instructions = []solana.CompiledInstruction{{ProgramIDIndex: 3, Accounts: []uint16{0, 1, 2}, Data: rng.Bytes(2)}}
+	case "twelve-signatures":
+		prog := m.AccountKeys[len(m.AccountKeys)-1]
+		m.AccountKeys = []solana.PublicKey{payer, second}
+		for len(m.AccountKeys) < 12 {
+			m.AccountKeys = append(m.AccountKeys, newKey())
+		}
+		m.AccountKeys = append(m.AccountKeys, prog)
+		setSigners(12)
+		m.Header.NumReadonlyUnsignedAccounts = 1
+		m.Instructions = []solana.CompiledInstruction{{ProgramIDIndex: 12, Accounts: []uint16{0, 11}, Data: rng.Bytes(3)}}
+	case "instruction-all-accounts":
+		setSigners(1)
+		all := make([]uint16, len(m.AccountKeys))
+		for i := range all {
+			all[i] = uint16(len(all) - 1 - i)
+		}
+		m.Instructions = []solana.CompiledInstruction{{ProgramIDIndex: uint16(len(m.AccountKeys) - 1), Accounts: all, Data: []byte{}}}
+		simpleVote = isVoteProg
+	case "v0-no-instructions":
+		setSigners(1)
+		m.SetVersion(solana.MessageVersionV0)
+		m.Instructions = []solana.CompiledInstruction{}
+	case "v0-one-instruction":
+		setSigners(1 + rng.Intn(2))
+		m.SetVersion(solana.MessageVersionV0)
+		m.Instructions = []solana.CompiledInstruction{{ProgramIDIndex: uint16(len(m.AccountKeys) - 1), Accounts: []uint16{0}, Data: rng.Bytes(1 + rng.Intn(5))}}
+	default:
+		panic("fixture: unknown edge shape " + shape)
+	}
+	*accs = append([]solana.PublicKey(nil), m.AccountKeys...)
+	return simpleVote
 }
